@@ -220,7 +220,80 @@ func serverStopScenario(c scfg) *mcx.Scenario {
 	}
 }
 
+// Stop falls between "connection accepted" and "connection registered": the application's OnNewConn
+// callback of a new connection is still running when Stop is called, and the peer stays connected and
+// silent afterwards. Serve must still return and the late connection must end cleanly.
+func serverStopDuringRegistration(t string, preempt int) *mcx.Scenario {
+	name := fmt.Sprintf("%s-server Stop while a new connection is inside OnNewConn (silent peer), preempt<=%d", t, preempt)
+	return &mcx.Scenario{
+		Name:        name,
+		Bounds:      mcx.Bounds{Preempt: preempt, Env: -1, Select: 0, Delay: 1},
+		DeadlockSig: "blocked-forever/" + t + "-server-stop-during-registration",
+		Body: func(s *vrt.Sched) func() (string, []mcx.Finding) {
+			var fs []mcx.Finding
+			fail := func(sig, format string, a ...any) {
+				fs = append(fs, mcx.Finding{Sig: sig, What: name + ": " + fmt.Sprintf(format, a...)})
+			}
+			inCallback, release := false, false
+			onClose := 0
+			var done <-chan struct{}
+			serveDone := func() bool { return false }
+			vrt.App("env", func() {
+				var stop func()
+				ok := func(context.Context) error { return nil }
+				if t == "tcp" {
+					srv := srvw.NewTCP(srvw.StreamOpts{OnNewTCP: func(cc *tcpclient.Conn) {
+						cc.AddOnClose(func() { onClose++ })
+						done = cc.Done()
+						inCallback = true
+						vrt.WaitUntil("application OnNewConn callback", func() bool { return release })
+					}})
+					serveDone = func() bool { return srv.ServeDone }
+					stop = srv.S.Stop
+					vrt.Quiesce("env: server up")
+					srv.L.Connect("10.0.0.11:1000", nil)
+				} else {
+					srv := srvw.NewDTLS(srvw.StreamOpts{OnNewDTLS: func(cc *udpclient.Conn) {
+						cc.AddOnClose(func() { onClose++ })
+						done = cc.Done()
+						inCallback = true
+						vrt.WaitUntil("application OnNewConn callback", func() bool { return release })
+					}})
+					serveDone = func() bool { return srv.ServeDone }
+					stop = srv.S.Stop
+					vrt.Quiesce("env: server up")
+					srv.L.Connect("10.0.0.11:1000", ok)
+				}
+				vrt.WaitUntil("the new connection is inside OnNewConn", func() bool { return inCallback })
+				vrt.App("stopper", func() { stop() })
+				vrt.Quiesce("env: Stop returned, accept loop over")
+				release = true
+				vrt.Quiesce("env: registration finished")
+			})
+			return func() (string, []mcx.Finding) {
+				if !s.Deadlock && inCallback {
+					if !serveDone() {
+						fail("server-stop/serve-did-not-return", "Serve did not return after Stop although the only connection's peer is silent")
+					}
+					select {
+					case <-done:
+					default:
+						fail("server-stop/done-not-closed", "the connection registered during Stop never completed its done signal")
+					}
+					if onClose != 1 {
+						fail("server-stop/on-close-callback-count", "1 on-close callback registered, %d executions", onClose)
+					}
+				}
+				return fmt.Sprint(inCallback), fs
+			}
+		},
+	}
+}
+
 func addServerStop(r *ev.Run, scs *[]*mcx.Scenario) {
+	for _, t := range []string{"tcp", "dtls"} {
+		*scs = append(*scs, serverStopDuringRegistration(t, ev.Pick(r, 1, 2)))
+	}
 	for _, t := range []string{"udp", "tcp", "dtls"} {
 		*scs = append(*scs, serverStopScenario(scfg{T: t, Preempt: ev.Pick(r, 1, 2)}))
 	}
